@@ -10,9 +10,11 @@ Separate Extraction
   FixApply.apply_sorted FixApply.valid_changes FixApply.ch_sort
   PreferAscii.prefer_ascii Irregular.irregular
   FixBuilders.ch_bytes
-  FixBuilders.curly_attr_change FixBuilders.curly_child_fix FixBuilders.missing_curly_fix FixBuilders.curly_attr_fix_repaired
+  FixBuilders.curly_attr_change FixBuilders.curly_child_fix FixBuilders.missing_curly_fix
   FixBuilders.escape FixBuilders.entities_reported
-  FixBuilders.boolean_change FixBuilders.boolean_change_repaired FixBuilders.spread_change FixBuilders.spread_change_repaired
+  FixBuilders.boolean_change FixBuilders.spread_change
   FixBuilders.rename_change FixBuilders.process_change FixBuilders.node_global_change
   FixBuilders.vms_all_changes FixBuilders.vms_spec_change
+  FixBuilders.curly_attr_fix_before_fix FixBuilders.boolean_change_before_fix FixBuilders.spread_change_before_fix
+  FixBuilders.vms_spec_change_before_fix FixBuilders.global_change_before_fix
   FixBuilders.jsx_attr_stringb FixBuilders.jsx_textb FixBuilders.identb FixBuilders.import_line_ok FixBuilders.braces_balanced.
